@@ -1,0 +1,174 @@
+// Copyright 2020-2025 Buf Technologies, Inc.
+//
+// Licensed under the Apache License, Version 2.0 (the "License");
+// you may not use this file except in compliance with the License.
+// You may obtain a copy of the License at
+//
+//      http://www.apache.org/licenses/LICENSE-2.0
+//
+// Unless required by applicable law or agreed to in writing, software
+// distributed under the License is distributed on an "AS IS" BASIS,
+// WITHOUT WARRANTIES OR CONDITIONS OF ANY KIND, either express or implied.
+// See the License for the specific language governing permissions and
+// limitations under the License.
+
+
+//go:build verif
+
+package storageos
+
+// Contracts for the gocv verifier (see /verif/DESIGN.md). Comment-only.
+// Trusted os / path/filepath / sync/atomic sink contracts and the ghost variables j_os*, j_rename*, j_remove*,
+// j_lastFileClose, j_atom: /verif/specs/C14_buckets.spec.
+//
+// ---- C13: every os-level path is RealClean(Join(rootPath, p)) for a VALIDATED relative path p
+//
+//@ func (b *bucket) getExternalPath(path) (r, err)
+//@   property C13 C14
+//@   reveal j_ext
+//@   ensures validated: err == nil ==> validRel(Normalize(path)) && Normalize(path) != "."
+//@   ensures derived: err == nil ==> r == j_ext(b.rootPath, Normalize(path))
+//@   ensures err != nil ==> r == ""
+//@   canary ensures err != nil
+//@   canary ensures err == nil
+//
+//@ func (b *bucket) getExternalPrefix(prefix) (r, err)
+//@   property C13 C14
+//@   reveal j_ext
+//@   ensures validated: err == nil ==> validRel(Normalize(prefix))
+//@   ensures derived: err == nil ==> r == j_ext(b.rootPath, Normalize(prefix))
+//@   ensures err != nil ==> r == ""
+//@   canary ensures err != nil
+//
+// validateExternalPath only looks at metadata (Stat/Lstat of the path and, to tell "a parent is a file" from other
+// errors, of its lexical parents): nothing is opened, created or removed (frame on j_osRead / j_osWrite).
+//@ func (b *bucket) validateExternalPath(path, externalPath) (err)
+//@   property C13
+//@   modifies ghost.j_osStat
+//
+//@ func newErrNotDir(path) (r)
+//@   property C13
+//@   ensures r != nil
+//
+//@ func newReadObjectCloser(path, externalPath, file) (r)
+//@   property C14
+//@   ensures r != nil && r.file == file && r.ObjectInfo.Path() == path && r.ObjectInfo.ExternalPath() == externalPath && r.ObjectInfo.LocalPath() == externalPath
+//
+//@ func newWriteObjectCloser(file, path) (r)
+//@   property C15
+//@   ensures r != nil && r.file == file && r.path == path
+//
+// Get opens exactly the derived path (without symlink support; with it, what EvalSymlinks makes of that path:
+// symlink escape is outside a lexical argument and not covered), and touches nothing on the write side.
+//@ func (b *bucket) Get(ctx, path) (obj, err)
+//@   property C13 C14
+//@   modifies ghost.fail, ghost.j_osStat, ghost.j_osRead
+//@   ensures validated: err == nil ==> validRel(Normalize(path)) && Normalize(path) != "."
+//@   ensures confined: forall q string :: q in ghost.j_osRead && !(q in old(ghost.j_osRead)) ==> validRel(Normalize(path)) && Normalize(path) != "." && q == ite(b.symlinks, first(filepath.EvalSymlinks(j_ext(b.rootPath, Normalize(path)))), j_ext(b.rootPath, Normalize(path)))
+//@   ensures object: err == nil ==> obj != nil && cast(*readObjectCloser, obj).ObjectInfo.Path() == path && cast(*readObjectCloser, obj).ObjectInfo.ExternalPath() == j_ext(b.rootPath, Normalize(path))
+//@   ensures reported {C15}: ghost.fail && !old(ghost.fail) ==> err != nil
+//@   canary ensures err != nil
+//
+//@ func (b *bucket) Stat(ctx, path) (obj, err)
+//@   property C13 C14
+//@   modifies ghost.j_osStat
+//@   ensures validated: err == nil ==> validRel(Normalize(path)) && Normalize(path) != "."
+//@   canary ensures err != nil
+//
+// Put: the write-side paths are the derived path and its parent directory, nothing else; an atomic put writes a
+// temporary file in that directory and remembers the derived path as the rename target, a plain put has no target.
+//@ func (b *bucket) Put(ctx, path, options) (w, err)
+//@   property C13 C14 C15
+//@   modifies ghost.fail, ghost.wfail, ghost.j_osStat, ghost.j_osWrite
+//@   ensures validated: err == nil ==> validRel(Normalize(path)) && Normalize(path) != "."
+//@   ensures confined: forall q string :: q in ghost.j_osWrite && !(q in old(ghost.j_osWrite)) ==> validRel(Normalize(path)) && Normalize(path) != "." && (q == j_ext(b.rootPath, Normalize(path)) || q == filepath.Dir(j_ext(b.rootPath, Normalize(path))))
+//@   ensures target {C15}: err == nil ==> w != nil && cast(*writeObjectCloser, w).file != nil && cast(*writeObjectCloser, w).path == ite(storage.NewPutOptions(options).Atomic(), j_ext(b.rootPath, Normalize(path)), "")
+//@   ensures reported {C15}: ghost.wfail && !old(ghost.wfail) ==> err != nil
+//@   canary ensures err != nil
+//
+//@ func (b *bucket) Delete(ctx, path) (err)
+//@   property C13 C14 C15
+//@   modifies ghost.fail, ghost.wfail, ghost.j_osWrite, ghost.j_removeCalls, ghost.j_removed
+//@   ensures validated: err == nil ==> validRel(Normalize(path)) && Normalize(path) != "."
+//@   ensures confined: forall q string :: q in ghost.j_osWrite && !(q in old(ghost.j_osWrite)) ==> validRel(Normalize(path)) && Normalize(path) != "." && q == j_ext(b.rootPath, Normalize(path))
+//@   ensures reported {C15}: ghost.wfail && !old(ghost.wfail) ==> err != nil
+//@   canary ensures err != nil
+//
+// DeleteAll removes exactly the tree at the derived prefix. (A not-exist answer of RemoveAll is deliberately mapped
+// to nil, so no `reported` clause is claimed here.)
+//@ func (b *bucket) DeleteAll(ctx, prefix) (err)
+//@   property C13 C14
+//@   modifies ghost.fail, ghost.wfail, ghost.j_osWrite
+//@   ensures validated: err == nil ==> validRel(Normalize(prefix))
+//@   ensures confined: forall q string :: q in ghost.j_osWrite && !(q in old(ghost.j_osWrite)) ==> validRel(Normalize(prefix)) && q == j_ext(b.rootPath, Normalize(prefix))
+//@   canary ensures err != nil
+//
+// ---- C15: the write closer
+//
+//@ func toStorageError(err) (r)
+//@   property C15
+//@   ensures (r == nil) <==> (err == nil)
+//
+// onceError latches the FIRST error stored (single-cell model of atomic.Value, ghost.j_atom).
+//@ func (e *onceError) Store(err) ()
+//@   property C15
+//@   modifies ghost.j_atom
+//@   ensures first-latched: ghost.j_atom == ite(old(ghost.j_atom) == nil, err, old(ghost.j_atom))
+//
+//@ func (e *onceError) Load() (r)
+//@   property C15
+//@   ensures (r == nil) <==> (ghost.j_atom == nil)
+//
+// Write: a failed or short write is reported and latched for Close.
+//@ func (w *writeObjectCloser) Write(p) (n, err)
+//@   property C15
+//@   modifies ghost.fail, ghost.wfail, ghost.j_atom
+//@   ensures reported: ghost.wfail && !old(ghost.wfail) ==> err != nil
+//@   ensures latched: ghost.wfail && !old(ghost.wfail) ==> ghost.j_atom != nil
+//@   ensures latch-kept: old(ghost.j_atom) != nil ==> ghost.j_atom == old(ghost.j_atom)
+//@   ensures no-short-write: err == nil ==> n == len(p)
+//@   canary ensures err != nil
+//
+// Close. With a rename target (atomic put): the temporary file is renamed onto the target exactly when no write
+// failed and the file closed cleanly; Close returns nil exactly when that rename succeeded; on every other outcome
+// the temporary file is removed and nothing is renamed ("a failed atomic put leaves no new object behind", at the
+// level of the calls made). Without a target nothing is renamed or removed. Every failing sink is reported.
+//@ func (w *writeObjectCloser) Close() (err)
+//@   property C15
+//@   modifies ghost.fail, ghost.wfail, ghost.j_osWrite, ghost.j_renameCalls, ghost.j_renameOk, ghost.j_renameFrom, ghost.j_renameTo, ghost.j_removeCalls, ghost.j_removed, ghost.j_lastFileClose
+//@   requires w.file != nil
+//@   ensures rename-iff-clean: ghost.j_renameCalls == old(ghost.j_renameCalls) + ite(w.path != "" && ghost.j_atom == nil && ghost.j_lastFileClose == nil, 1, 0)
+//@   ensures rename-target: ghost.j_renameCalls > old(ghost.j_renameCalls) ==> ghost.j_renameTo == add(old(ghost.j_renameTo), w.path) && ghost.j_renameFrom == add(old(ghost.j_renameFrom), w.file.Name())
+//@   ensures success-iff-renamed: w.path != "" ==> ((err == nil) <==> (ghost.j_renameOk == old(ghost.j_renameOk) + 1))
+//@   ensures failed-removes-temp: w.path != "" && err != nil ==> ghost.j_removeCalls == old(ghost.j_removeCalls) + 1 && ghost.j_removed == add(old(ghost.j_removed), w.file.Name())
+//@   ensures success-keeps-file: err == nil ==> ghost.j_removeCalls == old(ghost.j_removeCalls)
+//@   ensures plain-close: w.path == "" ==> ghost.j_renameCalls == old(ghost.j_renameCalls) && ghost.j_removeCalls == old(ghost.j_removeCalls) && ((err == nil) <==> (ghost.j_lastFileClose == nil))
+//@   ensures latched-write-error-reported: w.path != "" && ghost.j_atom != nil ==> err != nil
+//@   ensures reported: ghost.wfail && !old(ghost.wfail) ==> err != nil
+//@   ensures confined {C13}: forall q string :: q in ghost.j_osWrite && !(q in old(ghost.j_osWrite)) ==> q == w.path || q == w.file.Name()
+//@   canary ensures err != nil
+//@   canary ensures err == nil
+//
+// Walk reads the tree at the derived prefix and nothing else; a path is reported to f only after it passed
+// NormalizeAndValidate (the assertion is anchored on the call text, including the path argument).
+//@ func (b *bucket) Walk(ctx, prefix, f) (err)
+//@   property C13 C14
+//@   modifies heap, ghost.fail, ghost.wfail, ghost.j_osRead, ghost.j_osStat
+//@   ensures validated: err == nil ==> validRel(Normalize(prefix))
+//@   ensures confined: forall q string :: q in ghost.j_osRead && !(q in old(ghost.j_osRead)) ==> validRel(Normalize(prefix)) && q == j_ext(old(b.rootPath), Normalize(prefix))
+//@   closure 0 invariant forall q string :: q in ghost.j_osRead && !(q in old(ghost.j_osRead)) ==> validRel(Normalize(prefix)) && q == j_ext(old(b.rootPath), Normalize(prefix))
+//@   assert before "if err := f( storageutil.NewObjectInfo( path," reported-valid: validRel(path)
+//@   canary ensures err != nil
+//
+//@ func validateDirPathExists(dirPath, symlinks) (err)
+//@   property C13
+//@   modifies ghost.j_osStat
+//@   ensures stat-only: ghost.j_osStat == add(old(ghost.j_osStat), dirPath)
+//
+// A bucket's root is the normalized form of the directory it was opened on; opening only stats that directory.
+//@ func newBucket(rootPath, symlinks) (r, err)
+//@   property C13 C14
+//@   modifies ghost.j_osStat
+//@   ensures rooted: err == nil ==> r != nil && r.rootPath == Normalize(rootPath) && r.symlinks == symlinks && r.absoluteRootPath == first(filepath.Abs(rootPath))
+//@   ensures err != nil ==> r == nil
+//@   canary ensures err != nil
